@@ -17,10 +17,10 @@ from .helpers_r2 import *
 
 EXPLANATION = __doc__
 
-TRUNC_RX = r"^(std|tokio)::fs::(File::create|file::File::create|write)$"
-OPEN_RX = r"^(std|tokio)::fs::(OpenOptions|open_options::OpenOptions)::open$"
-READ_RX = r"^(std|tokio)::fs::(File::open|file::File::open|read|read_to_string)$"
-RENAME_RX = r"^(std|tokio)::fs::rename$"
+TRUNC_RX = r"^(std|tokio)::fs::(\w+::)?(File::create|write)$"
+OPEN_RX = r"^(std|tokio)::fs::(\w+::)?OpenOptions::open$"
+READ_RX = r"^(std|tokio)::fs::(\w+::)?(File::open|read|read_to_string)$"
+RENAME_RX = r"^(std|tokio)::fs::(\w+::)?rename$"
 SYNC_RX = r"::(sync_all|sync_data)$"
 DECODE_RX = r"(^bincode::deserialize(_from)?$|prost::message::Message::decode$|serde_json::from_(slice|str|reader)$)"
 
@@ -113,7 +113,10 @@ def run(ctx):
                 ctx.note("%s: database put with default write options and no flush_wal(true) before returning - survives a process "
                          "crash (WAL in page cache) but not a power loss (DESIGN C21-c, not armed)" % fkey(sv))
         # ---------------------------------------------------------------- C21-b
-        for fid in sorted(own):
+        own_closure = set(own)
+        for f in own:
+            own_closure |= set(x for x in closure_functions(F, f, 3) if F.bodies[x].crate in ("d_engine_core", "d_engine_server"))
+        for fid in sorted(own_closure):
             for b in real_bodies(F, fid):
                 dec = calls_matching(b, DECODE_RX)
                 if not dec:
